@@ -195,4 +195,18 @@ theorem splitRun_inv_reverse {S C : Type} (A B : C → S → S) (ng : C → C)
     cases b <;>
       simp only [List.map_cons, List.reverse_cons, splitRun, splitRun_append, ih, hA, hB]
 
+theorem iter_succ_right {S : Type} (f : S → S) (n : Nat) (s : S) : iter f (n + 1) s = f (iter f n s) := by
+  induction n generalizing s with
+  | zero => rfl
+  | succ n ih => exact ih (f s)
+
+theorem iter_inverse {S : Type} (f g : S → S) (h : ∀ s, g (f s) = s) (n : Nat) (s : S) :
+    iter g n (iter f n s) = s := by
+  induction n generalizing s with
+  | zero => rfl
+  | succ n ih =>
+    rw [iter_succ_right f n s]
+    show iter g n (g (f (iter f n s))) = s
+    rw [h, ih]
+
 end RV.Reversal
